@@ -79,6 +79,11 @@ def r_transformable(rule, types=("Interval", "Grad"), root=None):
                     outn = "[%s]" % ",".join(str(comp[k]) for k in range(4))
         tl = A.strip(A.stmt_expr(fn["body"]["stmts"][-1]) or {})
         good = tl.get("k") == "Tuple" and len(tl["elems"]) == 3 and len(comp) == 4
+        # every way out of the function returns the divided components: an early return that skips the
+        # homogeneous divide (a "fast path") is a different function for projective matrices
+        for r_ in A.find(fn["body"], "Return"):
+            good = False
+            rule.bad(key + "|early", "Transformable for %s returns `%s` early under `%s`; every result must be (out[0], out[1], out[2]) / out[3]" % (ty, A.unparse(r_.get("e") or {})[:50], " && ".join(A.enclosing_conds(fn["body"], r_) or [])[:80]), A.where(fn, r_))
         if good:
             for k, el in enumerate(tl["elems"]):
                 el = A.strip(el)
